@@ -123,9 +123,11 @@ double MetaOptimizer::doStep()
   int tolTest = 0;
   int fullTest = 0;
   double tol = getStopCondition()->getTolerance();
+  bool progressive = false;
   if (stepCount_ <= n_ && std::abs(initialValue_) > 0)
   {
     tol = std::abs(initialValue_) * pow(10, stepCount_ * precisionStep_);
+    progressive = true;
   }
 
   for (unsigned int i = 0; i < optDesc_->getNumberOfOptimizers(); ++i)
@@ -165,9 +167,10 @@ double MetaOptimizer::doStep()
     tolTest += nbParameters_[i] > 0 ? 1 : 0;
     fullTest += (nbParameters_[i] > 0 && optDesc_->getIterationType(i) == MetaOptimizerInfos::IT_TYPE_FULL) ? 1 : 0;
   }
-  // A single optimiser that has been run until its own convergence has nothing left to do;
-  // one that makes one step per iteration is iterated until the stop condition is met.
-  tolIsReached_ = (tolTest == 1 && fullTest == 1);
+  // A single optimiser that has been run until its own convergence with the final tolerance has nothing
+  // left to do; one that makes one step per iteration, or that was run with one of the coarser tolerances
+  // of the progressive steps, is iterated until the stop condition is met.
+  tolIsReached_ = (tolTest == 1 && fullTest == 1 && !progressive);
 
   return getFunction()->getValue();
 }
